@@ -19,7 +19,7 @@ claim("C07", E1,
       "(T<=4 x N<=3, real value MLP with symbolic parameters) and PPO's rollout layout fed to update_ppo's GAE: recurrences are SMT "
       "equalities against the reference recurrence for all real rewards/values/gamma/lambda and all 0/1 flag patterns; causality and "
       "cross-environment independence are two-copy (self-composition) queries.",
-      REAL + " MR.Q critic target / encoder loss causality is checked under C03.",
+      REAL + " MR.Q critic target / encoder loss: nothing after the first terminated step of a subtrajectory matters (two-copy over generalised forward passes; seeded networks for replay). Reward-to-go also with integer-typed rewards (E2). PPO: the real train_ppo runs one iteration over a stub vector env and the advantage statements of update_ppo run on the intercepted arguments.",
       "jaxpr -> SMT; recurrence equalities + two-copy non-interference queries (unsat = holds for all values within the shape bound)",
       "DESIGN.md §3 C07")
 NOT_APPLICABLE.pop("C07", None)
@@ -45,10 +45,10 @@ NOT_APPLICABLE.pop("C10", None)
 
 claim("C13", E1 + " + " + E2,
       "Bounded symbolic check of the real SoftmaxPolicy, GaussianPolicy and GaussianTanhPolicy heads (unbatched observation, batch "
-      "1-3, action dim 1-3, 2-4 discrete actions) over a free network whose outputs are arbitrary reals: probabilities, log-"
+      "1-3, action dim 1-2, 2-4 discrete actions) over a free network whose outputs are arbitrary reals: probabilities, log-"
       "probabilities, entropies and samples are SMT-compared with the closed forms (softmax / diagonal Gaussian with clipped std, "
       "sample = mean + std*n(key), Gumbel-arg-max), plus greedy arg-max selection for Q-networks and Q-tables.",
-      REAL + " E2 part: the eager epsilon_greedy_policy (symbolic epsilon and roll) and the action selection of the DQN-family loops (symbolic rolls vs the real linear schedule, warm-up).",
+      REAL + " E2 part: the eager epsilon_greedy_policy (symbolic epsilon and roll) and the action selection of the DQN-family loops (symbolic rolls vs the real linear schedule, warm-up; resumed runs with global_step > 0 against an arbitrary symbolic schedule).",
       "jaxpr -> SMT (QF_NRA + axiomatised exp/log/tanh; purified nlsat fallback); shape failures replayed eagerly",
       "DESIGN.md §3 C13")
 NOT_APPLICABLE.pop("C13", None)
@@ -70,7 +70,7 @@ claim("C03", E1,
       "every auxiliary output = documented formula, terminated rows ignore the bootstrap (2-copy), batch-order invariance, zero "
       "gradient to target networks / successor inputs, batch-size-1 behaviour; mode C (seeded networks) only produces replayable "
       "counterexamples.",
-      REAL + " Batch 1-3, obs dim 2, action dim 1, 3 discrete actions, hidden [2], horizons 2, 3 bins.",
+      REAL + " Batch 1-3, obs dim 2, action dim 1, 3 discrete actions, hidden [2] (3 wherever a LayerNorm follows), horizons 2-3, 3 bins.",
       "jaxpr -> SMT with forward-pass generalisation (z3.substitute), QF_NRA+ite decided by a z3 portfolio (default / nlsat / ite-elim) in fresh contexts",
       "DESIGN.md §3 C03, §1.5")
 NOT_APPLICABLE.pop("C03", None)
@@ -95,8 +95,8 @@ claim("C02", E2,
       "state: a symbolic number of additions n in [0,N+3] (capacities 1-4, so exact wrap-around and overwriting are covered) of "
       "transitions whose every field is a fresh symbol, then one sampled batch whose generator draws are arbitrary in-range values; "
       "length=min(n,N), every row equals (all fields) one of the last min(n,N) transitions, each of those is still held, never-"
-      "written (poisoned) slots are never returned; multi-task: <=5 symbolic select/add/sample operations over 2 tasks. PLUS one inductive step: add_sample from an ARBITRARY state satisfying the representation invariant (symbolic cursor/length/contents) re-establishes it and shifts the logical FIFO content - histories of any length for capacities 1-4.",
-      E2NOTE + " numpy allocation inside replay_buffer.py is shimmed to object arrays; dtype casts other than flag->int are outside the claim.",
+      "written (poisoned) slots are never returned; multi-task: <=5 symbolic select/add/sample operations over 2-3 (4) tasks; an integer-typed first transition must not change the declared storage dtype. PLUS one inductive step: add_sample from an ARBITRARY state satisfying the representation invariant (symbolic cursor/length/contents) re-establishes it and shifts the logical FIFO content - histories of any length for capacities 1-4.",
+      E2NOTE + " numpy allocation inside replay_buffer.py is shimmed to object arrays; the shim tracks the logical dtype of each allocation (writes into integer storage truncate as numpy's do); float64->float32 rounding is outside the claim.",
       "path-forking symbolic execution of the real classes under an allocation-only numpy shim; per-path SMT validity of the row-membership disjunction",
       "DESIGN.md §3 C02")
 NOT_APPLICABLE.pop("C02", None)
@@ -140,7 +140,7 @@ claim("C01", E2,
       "world in which every step's reward/terminated/truncated is symbolic: for every path (all termination/truncation patterns, "
       "warm-up lengths, epsilon rolls; also Q-learning, SARSA, double-Q, Monte-Carlo, Dyna-Q, REINFORCE, A2C) each stored transition equals the environment log entry of that step (observation = last "
       "returned / reset observation, action passed to step, reward, successor, flag) and the acting stub saw the current observation.",
-      LOOPNOTE + " Also covered: the five tabular loops (arguments of every update = that step's log entry, termination flag not truncation), REINFORCE's sample_trajectories with the real EpisodeDataset and A2C's collect_trajectories on a 2-environment vector stub. PPO's collector is not covered.",
+      LOOPNOTE + " Also covered: the five tabular loops (arguments of every update = that step's log entry, termination flag not truncation), REINFORCE's sample_trajectories with the real EpisodeDataset and A2C's collect_trajectories on a 2-environment vector stub. PPO's collect_trajectories is traced (E1) over a stub vector env: every rollout row = (current observation, action passed to env, that step's reward/flag, V(successor)), without and with a logger attached (concrete patterns of finished environments).",
       "path-forking symbolic execution of the training-loop code objects against a recording environment (bounded steps)",
       "DESIGN.md §3 C01, §2 F-LOOP")
 NOT_APPLICABLE.pop("C01", None)
@@ -159,7 +159,7 @@ claim("C12", E1,
       "policy loss values in mode P/C (forward outputs generalised); reinforce / actor-critic / A2C gradients equal the gradient "
       "jaxpr of the reference objective with stop-gradient weights (leaf-wise); PPO with a free-log-probability actor and free-table "
       "critics of output shape (N,1) and (N,): loss formula incl. per-sample value error, gradient at unchanged policy = unclipped "
-      "surrogate, zero gradient for samples clipped on their favoured side; first Adam step of the temperature moves alpha up "
+      "surrogate, zero gradient for samples clipped on their favoured side; update_ppo over 2-3 epochs = SGD on ppo_loss against the rollout log-probabilities; actor gradients of DPG / TD7 SALE / MR.Q = gradient of the documented objective for all parameter values; first Adam step of the temperature moves alpha up "
       "exactly when -mean(log pi) < target entropy.",
       REAL + " Batch 2-3, 3 PPO samples; Adam's sqrt/eps arithmetic with axiomatised sqrt/exp.",
       "jaxpr (incl. gradient jaxprs) -> SMT with forward-pass generalisation; QF_NRA + axiomatised exp/sqrt",
